@@ -11,6 +11,7 @@ import (
 	"strings"
 	"time"
 
+	"github.com/AdguardTeam/AdGuardHome/internal/aghnet"
 	"github.com/AdguardTeam/AdGuardHome/internal/stats"
 	"github.com/AdguardTeam/AdGuardHome/internal/verifx/lib"
 	vsync "github.com/AdguardTeam/AdGuardHome/verifx/vsync"
@@ -71,6 +72,9 @@ func consistent(r *schedStatsJSON) string {
 // F = hour rollover + flush, G = GET /control/stats, X = reset.
 var schedScenarios = [][]string{
 	{"U", "G"}, {"U", "V", "G"}, {"U", "F"}, {"F", "G"}, {"U", "F", "G"}, {"U", "X"}, {"U", "X", "G"}, {"X", "F"}, {"U", "V", "F"}, {"G", "G", "U"},
+	// C = clean shutdown (Close); the final check reopens the database: counts
+	// survive an hour rollover racing with the shutdown.
+	{"F", "C"}, {"U", "F", "C"},
 }
 
 func mkSchedBody(c *lib.Ctx, threads []string, pre int) func() vsync.Body {
@@ -84,7 +88,7 @@ func mkSchedBody(c *lib.Ctx, threads []string, pre int) func() vsync.Body {
 		}
 		var reads []string
 		var readErr string
-		nUpd, reset := 0, false
+		nUpd, reset, closed := 0, false, false
 		var fs []func()
 		for _, t := range threads {
 			switch t {
@@ -112,6 +116,9 @@ func mkSchedBody(c *lib.Ctx, threads []string, pre int) func() vsync.Body {
 					}
 					reads = append(reads, string(body))
 				})
+			case "C":
+				closed = true
+				fs = append(fs, func() { _ = x.s.Close() })
 			case "X":
 				reset = true
 				fs = append(fs, func() { _, _ = x.call(http.MethodPost, "/control/stats_reset", "") })
@@ -138,6 +145,14 @@ func mkSchedBody(c *lib.Ctx, threads []string, pre int) func() vsync.Body {
 						return fmt.Sprintf("overcount-in-response: %d queries reported, %d were counted", r.NumDNS, pre+nUpd)
 					}
 				}
+				if closed {
+					// Restart on the same file, as after a clean shutdown.
+					x.s = nil
+					ign, _ := aghnet.NewIgnoreEngine(nil)
+					if err := x.open(stats.Config{Limit: time.Duration(initialLimit) * time.Hour, Enabled: true, Ignored: ign}); err != nil {
+						return "restart-failed: " + err.Error()
+					}
+				}
 				// After quiescence every update is counted exactly once (unless a reset ran).
 				code, body := x.call(http.MethodGet, "/control/stats", "")
 				var r schedStatsJSON
@@ -152,7 +167,13 @@ func mkSchedBody(c *lib.Ctx, threads []string, pre int) func() vsync.Body {
 					if r.NumDNS > want {
 						return fmt.Sprintf("overcount-after-reset: %d > %d", r.NumDNS, want)
 					}
-				} else if r.NumDNS != want {
+				} else if closed && nUpd > 0 && r.NumDNS != want && r.NumDNS != uint64(pre) {
+					// An update racing with the shutdown may be refused (statistics already
+					// closed); the earlier ones must survive.
+					return fmt.Sprintf("conservation-across-shutdown: %d..%d updates were counted before the shutdown, the API reports %d after the restart", pre, want, r.NumDNS)
+				} else if closed && nUpd == 0 && r.NumDNS != want {
+					return fmt.Sprintf("conservation-across-shutdown: %d updates were counted before the shutdown, the API reports %d after the restart", want, r.NumDNS)
+				} else if !closed && r.NumDNS != want {
 					return fmt.Sprintf("conservation: %d updates were counted, the API reports %d", want, r.NumDNS)
 				}
 				return ""
